@@ -134,6 +134,15 @@ Proof.
   destruct (rtosc_match_shape name m args) as [[pe E]|[x E]]; rewrite E; reflexivity.
 Qed.
 
+(* the loops' `hit` flag: set iff the list of matching ports is not empty *)
+Lemma any_match_hits : forall ports i m args,
+  any_match ports m args = match scan_hits ports i m args with [] => false | _ => true end.
+Proof.
+  induction ports as [|[name sub] r IH]; intros i m args; [reflexivity|].
+  cbn [any_match existsb scan_hits fst]. fold (any_match r m args). rewrite (IH (i + 1)).
+  destruct (rtosc_match_shape name m args) as [[pe E]|[x E]]; rewrite E; reflexivity.
+Qed.
+
 (* linear scan with location buffer: the same ports, in the same order *)
 Lemma scan_loc_fold : forall cb tid ports i m args obj0 old st,
   scan_loc cb tid ports i m args obj0 old st =
@@ -396,8 +405,10 @@ Qed.
 (* ======================================================================== *)
 Definition lit_table (T : table) : Prop := Forall (fun p => lit_port (fst p)) (t_ports T).
 Definition assoc_ok (T : table) : Prop :=
-  length (t_assoc T) = 127%nat /\ Forall (fun a => 0 <= a) (t_assoc T).
-Definition seven_bit (m : str) : Prop := Forall (fun c => 0 <= c < 127) m.
+  length (t_assoc T) = 256%nat /\ Forall (fun a => 0 <= a) (t_assoc T).
+(* a string of bytes (unsigned char values); nothing is asked beyond that since
+   the letter table has one entry per byte value *)
+Definition byte_str (m : str) : Prop := Forall (fun c => 0 <= c < 256) m.
 
 Lemma tables_of_some : forall T H, tables_of T = Some H ->
   exists hs, all_some (map (hash_of (t_pos T) (t_assoc T)) (keys_of T)) = Some hs /\
@@ -459,14 +470,14 @@ Proof.
 Qed.
 
 Lemma hash_sum_total : forall assoc s pos,
-  length assoc = 127%nat -> seven_bit s -> exists x, hash_sum assoc s pos = Some x.
+  length assoc = 256%nat -> byte_str s -> exists x, hash_sum assoc s pos = Some x.
 Proof.
   induction pos as [|p r IH]; intros La Hs; cbn; [eauto|].
   destruct (IH La Hs) as [acc ->].
   destruct ((0 <=? p) && (p <? Z.of_nat (length s))) eqn:R; [|eauto].
   apply andb_true_iff in R as [R1 R2]. apply Z.leb_le in R1. apply Z.ltb_lt in R2.
   destruct (nth_error s (Z.to_nat p)) as [c|] eqn:N.
-  - apply nth_error_In in N. unfold seven_bit in Hs. rewrite Forall_forall in Hs. specialize (Hs _ N).
+  - apply nth_error_In in N. unfold byte_str in Hs. rewrite Forall_forall in Hs. specialize (Hs _ N).
     unfold assoc_at. replace (c <? 0) with false by (symmetry; apply Z.ltb_ge; lia).
     destruct (nth_error assoc (Z.to_nat c)) as [a|] eqn:Na; [eauto|].
     apply nth_error_None in Na. lia.
@@ -494,9 +505,9 @@ Proof.
   destruct hs; [congruence | cbn; lia].
 Qed.
 
-Lemma seven_bit_fc : forall m, seven_bit m -> seven_bit (first_component m).
+Lemma byte_str_fc : forall m, byte_str m -> byte_str (first_component m).
 Proof.
-  intros m H. destruct (fc_prefix m) as [r E]. unfold seven_bit in *. rewrite E in H.
+  intros m H. destruct (fc_prefix m) as [r E]. unfold byte_str in *. rewrite E in H.
   apply Forall_app in H. tauto.
 Qed.
 
@@ -507,7 +518,7 @@ Proof. intros T n name sub E. unfold keys_of. now rewrite nth_error_map, E. Qed.
 
 Theorem hashed_eq_linear : forall T H m args,
   tables_of T = Some H -> lit_table T -> assoc_ok T ->
-  addr_chars m -> seven_bit m ->
+  addr_chars m -> byte_str m ->
   lookup_hit T H m args <> LErr /\
   forall j name sub,
     lookup_hit T H m args = LHit j name sub <->
@@ -520,7 +531,7 @@ Proof.
   assert (Hpos : Forall (fun h => 0 <= h) hs).
   { eapply all_some_forall; [exact Hall|]. intros h Hin. apply in_map_iff in Hin as (key & E & _).
     eapply hash_of_nonneg; eassumption. }
-  destruct (hash_sum_total (t_assoc T) (first_component m) (t_pos T) La (seven_bit_fc _ H7)) as [x Hx].
+  destruct (hash_sum_total (t_assoc T) (first_component m) (t_pos T) La (byte_str_fc _ H7)) as [x Hx].
   set (comp := first_component m) in *.
   assert (Hh : hash_of (h_pos H) (h_assoc H) comp = Some (Z.of_nat (length comp) + x)).
   { rewrite Ep, Eas. unfold hash_of. now rewrite Hx. }
@@ -602,7 +613,7 @@ Qed.
 (* the default handler runs (hashed branch) only when no port of the table
    matches the message *)
 Theorem default_only_when_no_match : forall T H m args,
-  tables_of T = Some H -> lit_table T -> assoc_ok T -> addr_chars m -> seven_bit m ->
+  tables_of T = Some H -> lit_table T -> assoc_ok T -> addr_chars m -> byte_str m ->
   lookup_hit T H m args = LMiss -> scan_hits (t_ports T) 0 m args = [].
 Proof.
   intros T H m args HT Hlit Ha Hm H7 L.
@@ -613,7 +624,7 @@ Qed.
 
 (* at most one port of a hashed literal table matches a message *)
 Theorem hashed_table_unique : forall T H m args j1 n1 s1 p1 j2 n2 s2 p2,
-  tables_of T = Some H -> lit_table T -> assoc_ok T -> addr_chars m -> seven_bit m ->
+  tables_of T = Some H -> lit_table T -> assoc_ok T -> addr_chars m -> byte_str m ->
   In (j1, n1, s1, p1) (scan_hits (t_ports T) 0 m args) ->
   In (j2, n2, s2, p2) (scan_hits (t_ports T) 0 m args) -> j1 = j2.
 Proof.
@@ -692,7 +703,7 @@ Qed.
 Definition tab_ex : table :=
   {| t_id := 0; t_dflt := false;
      t_ports := [([97; 58; 105], false); ([98; 99; 47], true); ([98; 97], false)];
-     t_pos := [0]; t_assoc := repeat 0 127 |}.
+     t_pos := [0]; t_assoc := repeat 0 256 |}.
 
 Lemma tab_ex_ok :
   (exists H, tables_of tab_ex = Some H /\
